@@ -368,22 +368,37 @@ func c18Token(c *Ctx) {
 		}
 		return true
 	}
-	// (1) creators of the token path
+	// (1) creators of the token path (in the option closure, or in a helper that is handed the token path)
 	nRename := 0
-	for _, fn := range fns {
+	var creators func(fn *ssa.Function, isTP func(ssa.Value) bool, depth int)
+	creators = func(fn *ssa.Function, isTP func(ssa.Value) bool, depth int) {
 		for _, call := range Calls(fn) {
 			f := call.Common().StaticCallee()
 			if f == nil {
+				continue
+			}
+			args := call.Common().Args
+			if InRepo(f) && f.Blocks != nil && depth < 2 {
+				for ai, a := range args {
+					if isTP(a) && ai < len(f.Params) {
+						hp := f.Params[ai]
+						fns = append(fns, f)
+						// the helper's own result (its error) must be inspected by the caller
+						if v := call.Value(); v != nil {
+							c.Check(len(*v.Referrers()) > 0, "token-errors-checked", "WithToken "+FuncShort(f)+" error", p.InstrPos(call), "error inspected", "the error of "+FuncShort(f)+" is discarded: an unwritable data directory silently yields a new token on every start")
+						}
+						creators(f, func(v ssa.Value) bool { return v == ssa.Value(hp) }, depth+1)
+					}
+				}
 				continue
 			}
 			pk := PkgOf(f)
 			if pk != "os" && pk != "io/ioutil" {
 				continue
 			}
-			args := call.Common().Args
 			switch f.Name() {
 			case "WriteFile", "Create", "OpenFile":
-				if len(args) > 0 && isTokenPath(args[0]) {
+				if len(args) > 0 && isTP(args[0]) {
 					if f.Name() == "OpenFile" {
 						if fl, ok := ConstInt(args[1]); ok && fl&0x40 == 0 && fl&0x3 == 0 { // no O_CREATE, read-only
 							continue
@@ -392,7 +407,7 @@ func c18Token(c *Ctx) {
 					c.Violate("token-atomic-publish", "WithToken "+FuncShort(f)+" on the token path", p.InstrPos(call), "the token file is created/written in place: a kill between create and write leaves an empty or truncated token that later starts read back as the identity")
 				}
 			case "Rename":
-				if len(args) == 2 && isTokenPath(args[1]) {
+				if len(args) == 2 && isTP(args[1]) {
 					nRename++
 					// source: a file written completely before (WriteFile on the same source value dominates)
 					src := args[0]
@@ -403,10 +418,13 @@ func c18Token(c *Ctx) {
 							written = true
 						}
 					}
-					c.Check(written && !isTokenPath(src), "token-atomic-publish", "WithToken rename source", p.InstrPos(call), "temporary file fully written, then renamed onto the token path", "the file renamed onto the token path is not a distinct temporary file written before the rename")
+					c.Check(written && !isTP(src), "token-atomic-publish", "WithToken rename source", p.InstrPos(call), "temporary file fully written, then renamed onto the token path", "the file renamed onto the token path is not a distinct temporary file written before the rename")
 				}
 			}
 		}
+	}
+	for _, fn := range append([]*ssa.Function(nil), fns...) {
+		creators(fn, isTokenPath, 0)
 	}
 	c.Check(nRename >= 1, "token-atomic-publish", "WithToken publishes by rename", p.Pos(cl.Pos()), "token path created only by os.Rename", "the token path is never published by os.Rename of a completed temporary file")
 	// (2) errors of WriteFile / Rename are consumed
